@@ -1,6 +1,7 @@
 import Driver.Util
 import Driver.Part
 import Driver.Barrier
+import Driver.BarrierME
 import Driver.Deliver
 import Driver.Atomic
 import Driver.Bytes
@@ -14,6 +15,7 @@ def main (args : List String) : IO UInt32 := do
   match args with
   | ["part"] => lineLoop stdin Driver.Part.handle; return 0
   | ["barrier"] => stateLoop stdin Driver.Barrier.handle Driver.Barrier.dummy; return 0
+  | ["barrierme"] => stateLoop stdin Driver.BarrierME.handle Driver.BarrierME.dummy; return 0
   | ["deliver"] => stateLoop stdin Driver.Deliver.handle Driver.Deliver.dummy; return 0
   | ["atomic"] => stateLoop stdin Driver.Atomic.handle []; return 0
   | ["flush"] => stateLoop stdin Driver.Flush.handle ⟨YgmVerif.Flush.start 0 0 0, 2⟩; return 0
